@@ -2,7 +2,7 @@
     where (-inf) + (+inf) = -inf (the semiring zero annihilates). *)
 From Coq Require Import QArith Qcanon Bool.
 Require Import Fggs.Model.Semiring.
-Open Scope Qc_scope.
+Local Open Scope Qc_scope.
 
 Inductive trop : Type := NInf | TFin (q : Qc) | TPInf.
 
